@@ -18,6 +18,8 @@ import EPV.Gen.BlakeInitLM
 import EPV.Spec.Blake
 import EPV.Lemmas.Blake
 import EPV.Lemmas.BlakeModuli
+import EPV.Lemmas.BlakeFields
+import EPV.Lemmas.BlakeAccept
 import EPV.Tactics
 
 set_option linter.all false
@@ -26,29 +28,39 @@ open EPV EPV.Gen EPV.Spec.Blake EPV.Blake
 
 namespace EPV.C20
 
-/-- pair (λ, G), constructor: an accepting path ends with one positive-definite isotropic material that
-reproduces the two supplied values; the problem parameters and the supplied values are the documented
-admissible ones -/
+/-- pair (λ, G): an accepting path of the constructor is an accepting path of `set_elastic_params` on the two
+supplied values, followed by the four problem-parameter checks; the six attributes are what it returned -/
+theorem initLG_bridge (p : BlakeInitLG.P) (h : BlakeInitLG.outcome p = .ok) :
+    BlakeModLG.outcome { lame_mod := p.lame_mod, shear_mod := p.shear_mod } = .ok ∧ DocumentedProblem p.geometry p.ref_density p.cavity_radius p.pressure_scale
+    ∧ BlakeInitLG.lame_mod p = BlakeModLG.lame_mod { lame_mod := p.lame_mod, shear_mod := p.shear_mod }
+    ∧ BlakeInitLG.shear_mod p = BlakeModLG.shear_mod { lame_mod := p.lame_mod, shear_mod := p.shear_mod }
+    ∧ BlakeInitLG.youngs_mod p = BlakeModLG.youngs_mod { lame_mod := p.lame_mod, shear_mod := p.shear_mod }
+    ∧ BlakeInitLG.poisson_ratio p = BlakeModLG.poisson_ratio { lame_mod := p.lame_mod, shear_mod := p.shear_mod }
+    ∧ BlakeInitLG.bulk_mod p = BlakeModLG.bulk_mod { lame_mod := p.lame_mod, shear_mod := p.shear_mod }
+    ∧ BlakeInitLG.long_mod p = BlakeModLG.long_mod { lame_mod := p.lame_mod, shear_mod := p.shear_mod } := by
+  unfold BlakeInitLG.outcome at h
+  unfold BlakeInitLG.lame_mod BlakeInitLG.shear_mod BlakeInitLG.youngs_mod BlakeInitLG.poisson_ratio BlakeInitLG.bulk_mod BlakeInitLG.long_mod
+  epv_walk (
+    simp only [epv_tree, epv_cond, DocumentedProblem] at *
+    simp only [*, if_true, if_false, not_true_eq_false, not_false_eq_true, and_self, true_and]
+    exact ⟨rfl, rfl, rfl, rfl, rfl, rfl⟩)
+
+/-- pair (λ, G), constructor: on acceptance the six attributes are one positive-definite isotropic material that
+reproduces the two supplied values (the hypotheses of the C15 field theorems hold for the constructed solver) -/
 theorem initLG_ok (p : BlakeInitLG.P) (h : BlakeInitLG.outcome p = .ok) :
     IsoMaterial (BlakeInitLG.lame_mod p) (BlakeInitLG.shear_mod p) (BlakeInitLG.youngs_mod p) (BlakeInitLG.poisson_ratio p) (BlakeInitLG.bulk_mod p) (BlakeInitLG.long_mod p)
-      ∧ BlakeInitLG.lame_mod p = p.lame_mod ∧ BlakeInitLG.shear_mod p = p.shear_mod ∧ DocumentedProblem p.geometry p.ref_density p.cavity_radius p.pressure_scale
-      ∧ Kind.GivenOk .lame p.lame_mod ∧ Kind.GivenOk .shear p.shear_mod := by
-  epv_paths (
-    simp only [epv_cond] at *
-    simp only [epv_leaf, Kind.GivenOk]
-    simp only [not_le, not_lt] at *
-    have h1 : 0 < p.lame_mod + p.shear_mod := by linarith
-    refine ⟨IsoMaterial.of_mul ?_ ?_ ?_ ?_ ?_ ?_, ?_, ?_, ⟨?_, ?_, ?_, ?_⟩, ?_, ?_⟩ <;> first | trivial | assumption | linarith | ring1 | (fsimp <;> ring1) | exact ⟨by linarith, by linarith⟩)
+      ∧ BlakeInitLG.lame_mod p = p.lame_mod ∧ BlakeInitLG.shear_mod p = p.shear_mod := by
+  obtain ⟨hm, -, e1, e2, e3, e4, e5, e6⟩ := initLG_bridge p h
+  rw [e1, e2, e3, e4, e5, e6]
+  exact EPV.Blake.modLG_ok _ hm
 
 /-- pair (λ, G): the constructor **accepts ⇔ the input is documented-valid** -/
 theorem initLG_accepts_iff (p : BlakeInitLG.P) :
     BlakeInitLG.outcome p = .ok ↔ (DocumentedPair .lame .shear p.lame_mod p.shear_mod) ∧ DocumentedProblem p.geometry p.ref_density p.cavity_radius p.pressure_scale := by
   constructor
   · intro h
-    obtain ⟨m, e1, e2, d, g1, g2⟩ := initLG_ok p h
-    refine ⟨⟨g1, g2, _, _, m.shear_pos, m.bulk_pos, ?_, ?_⟩, d⟩
-    · rw [← e1]; exact m.kind_of.1
-    · rw [← e2]; exact m.kind_of.2.1
+    obtain ⟨hm, d, -⟩ := initLG_bridge p h
+    exact ⟨(EPV.Blake.modLG_accepts_iff _).mp hm, d⟩
   · rintro ⟨⟨hx, hy, L, G, hG, hB, h1, h2⟩, hgeo, hrho, hrad, hprs⟩
     simp only [Kind.of, Kind.GivenOk] at hx hy h1 h2
     have hLG : 0 < L + G := by linarith
@@ -62,40 +74,59 @@ theorem initLG_accepts_iff (p : BlakeInitLG.P) :
     have hc7 : BlakeInitLG.c7 p := by simp only [epv_cond]; exact hprs
     simp only [epv_tree, hc0, hc1, hc2, hc3, hc4, hc5, hc6, hc7, if_true, if_false, ite_self]
 
+/-- pair (λ, G): **the constructed solver is in the domain of the C15 field theorems** — the attributes `_run` reads
+(a, ρ₀, P₀ as supplied, λ, G, ν, M as the constructor computed them) form an admissible problem
+(`EPV.Blake.Admissible`: one positive-definite isotropic material, ρ₀, a, P₀ > 0) -/
+theorem initLG_admissible (p : BlakeInitLG.P) (h : BlakeInitLG.outcome p = .ok) :
+    EPV.Blake.Admissible
+      { cavity_radius := p.cavity_radius, lame_mod := BlakeInitLG.lame_mod p, long_mod := BlakeInitLG.long_mod p,
+        poisson_ratio := BlakeInitLG.poisson_ratio p, pressure_scale := p.pressure_scale, ref_density := p.ref_density,
+        shear_mod := BlakeInitLG.shear_mod p } := by
+  obtain ⟨m, -, -⟩ := initLG_ok p h
+  obtain ⟨-, hρ, ha, hP⟩ := (initLG_bridge p h).2.1
+  exact ⟨⟨_, _, m⟩, hρ, ha, hP⟩
+
 /-- pair (λ, G): the constructor returns or raises `ValueError`, nothing else -/
 theorem initLG_total (p : BlakeInitLG.P) : BlakeInitLG.outcome p = .ok ∨ BlakeInitLG.outcome p = .raise "ValueError" := by
+  unfold BlakeInitLG.outcome
   epv_ok_or_valueError
 
 theorem initLG_raise (p : BlakeInitLG.P) (h : BlakeInitLG.outcome p ≠ .ok) : BlakeInitLG.outcome p = .raise "ValueError" :=
   (initLG_total p).resolve_left h
 
-/-- pair (λ, E), constructor: an accepting path ends with one positive-definite isotropic material that
-reproduces the two supplied values; the problem parameters and the supplied values are the documented
-admissible ones -/
+/-- pair (λ, E): an accepting path of the constructor is an accepting path of `set_elastic_params` on the two
+supplied values, followed by the four problem-parameter checks; the six attributes are what it returned -/
+theorem initLE_bridge (p : BlakeInitLE.P) (h : BlakeInitLE.outcome p = .ok) :
+    BlakeModLE.outcome { lame_mod := p.lame_mod, youngs_mod := p.youngs_mod } = .ok ∧ DocumentedProblem p.geometry p.ref_density p.cavity_radius p.pressure_scale
+    ∧ BlakeInitLE.lame_mod p = BlakeModLE.lame_mod { lame_mod := p.lame_mod, youngs_mod := p.youngs_mod }
+    ∧ BlakeInitLE.shear_mod p = BlakeModLE.shear_mod { lame_mod := p.lame_mod, youngs_mod := p.youngs_mod }
+    ∧ BlakeInitLE.youngs_mod p = BlakeModLE.youngs_mod { lame_mod := p.lame_mod, youngs_mod := p.youngs_mod }
+    ∧ BlakeInitLE.poisson_ratio p = BlakeModLE.poisson_ratio { lame_mod := p.lame_mod, youngs_mod := p.youngs_mod }
+    ∧ BlakeInitLE.bulk_mod p = BlakeModLE.bulk_mod { lame_mod := p.lame_mod, youngs_mod := p.youngs_mod }
+    ∧ BlakeInitLE.long_mod p = BlakeModLE.long_mod { lame_mod := p.lame_mod, youngs_mod := p.youngs_mod } := by
+  unfold BlakeInitLE.outcome at h
+  unfold BlakeInitLE.lame_mod BlakeInitLE.shear_mod BlakeInitLE.youngs_mod BlakeInitLE.poisson_ratio BlakeInitLE.bulk_mod BlakeInitLE.long_mod
+  epv_walk (
+    simp only [epv_tree, epv_cond, DocumentedProblem] at *
+    simp only [*, if_true, if_false, not_true_eq_false, not_false_eq_true, and_self, true_and]
+    exact ⟨rfl, rfl, rfl, rfl, rfl, rfl⟩)
+
+/-- pair (λ, E), constructor: on acceptance the six attributes are one positive-definite isotropic material that
+reproduces the two supplied values (the hypotheses of the C15 field theorems hold for the constructed solver) -/
 theorem initLE_ok (p : BlakeInitLE.P) (h : BlakeInitLE.outcome p = .ok) :
     IsoMaterial (BlakeInitLE.lame_mod p) (BlakeInitLE.shear_mod p) (BlakeInitLE.youngs_mod p) (BlakeInitLE.poisson_ratio p) (BlakeInitLE.bulk_mod p) (BlakeInitLE.long_mod p)
-      ∧ BlakeInitLE.lame_mod p = p.lame_mod ∧ BlakeInitLE.youngs_mod p = p.youngs_mod ∧ DocumentedProblem p.geometry p.ref_density p.cavity_radius p.pressure_scale
-      ∧ Kind.GivenOk .lame p.lame_mod ∧ Kind.GivenOk .youngs p.youngs_mod := by
-  epv_paths (
-    simp only [epv_cond] at *
-    simp only [epv_leaf, Kind.GivenOk]
-    simp only [not_le, not_lt] at *
-    generalize hR : (p.youngs_mod ^ (2 : ℕ) + 9 * p.lame_mod ^ (2 : ℕ) + 2 * p.youngs_mod * p.lame_mod) ^ ((1 : ℝ) / 2) = R at *
-    have hR0 : 0 ≤ R := hR ▸ rpow_half_nonneg _
-    have hR2 : R * R = p.youngs_mod ^ (2 : ℕ) + 9 * p.lame_mod ^ (2 : ℕ) + 2 * p.youngs_mod * p.lame_mod :=
-      hR ▸ rpow_half_mul_self (by nlinarith [sq_nonneg (p.youngs_mod + p.lame_mod), sq_nonneg p.lame_mod])
-    have h1 : 0 < p.youngs_mod + p.lame_mod + R := by linarith
-    refine ⟨IsoMaterial.of_mul ?_ ?_ ?_ ?_ ?_ ?_, ?_, ?_, ⟨?_, ?_, ?_, ?_⟩, ?_, ?_⟩ <;> first | trivial | assumption | linarith | ring1 | (fsimp <;> ring1) | linear_combination (-1 / 8 : ℝ) * hR2 | exact ⟨by linarith, by linarith⟩)
+      ∧ BlakeInitLE.lame_mod p = p.lame_mod ∧ BlakeInitLE.youngs_mod p = p.youngs_mod := by
+  obtain ⟨hm, -, e1, e2, e3, e4, e5, e6⟩ := initLE_bridge p h
+  rw [e1, e2, e3, e4, e5, e6]
+  exact EPV.Blake.modLE_ok _ hm
 
 /-- pair (λ, E): the constructor **accepts ⇔ the input is documented-valid** -/
 theorem initLE_accepts_iff (p : BlakeInitLE.P) :
     BlakeInitLE.outcome p = .ok ↔ (DocumentedPair .lame .youngs p.lame_mod p.youngs_mod) ∧ DocumentedProblem p.geometry p.ref_density p.cavity_radius p.pressure_scale := by
   constructor
   · intro h
-    obtain ⟨m, e1, e2, d, g1, g2⟩ := initLE_ok p h
-    refine ⟨⟨g1, g2, _, _, m.shear_pos, m.bulk_pos, ?_, ?_⟩, d⟩
-    · rw [← e1]; exact m.kind_of.1
-    · rw [← e2]; exact m.kind_of.2.2.1
+    obtain ⟨hm, d, -⟩ := initLE_bridge p h
+    exact ⟨(EPV.Blake.modLE_accepts_iff _).mp hm, d⟩
   · rintro ⟨⟨hx, hy, L, G, hG, hB, h1, h2⟩, hgeo, hrho, hrad, hprs⟩
     simp only [Kind.of, Kind.GivenOk] at hx hy h1 h2
     have hLG : 0 < L + G := by linarith
@@ -123,42 +154,59 @@ theorem initLE_accepts_iff (p : BlakeInitLE.P) :
     have hc7 : BlakeInitLE.c7 p := by simp only [epv_cond]; exact hprs
     simp only [epv_tree, hc0, hc1, hc2, hc3, hc4, hc5, hc6, hc7, if_true, if_false, ite_self]
 
+/-- pair (λ, E): **the constructed solver is in the domain of the C15 field theorems** — the attributes `_run` reads
+(a, ρ₀, P₀ as supplied, λ, G, ν, M as the constructor computed them) form an admissible problem
+(`EPV.Blake.Admissible`: one positive-definite isotropic material, ρ₀, a, P₀ > 0) -/
+theorem initLE_admissible (p : BlakeInitLE.P) (h : BlakeInitLE.outcome p = .ok) :
+    EPV.Blake.Admissible
+      { cavity_radius := p.cavity_radius, lame_mod := BlakeInitLE.lame_mod p, long_mod := BlakeInitLE.long_mod p,
+        poisson_ratio := BlakeInitLE.poisson_ratio p, pressure_scale := p.pressure_scale, ref_density := p.ref_density,
+        shear_mod := BlakeInitLE.shear_mod p } := by
+  obtain ⟨m, -, -⟩ := initLE_ok p h
+  obtain ⟨-, hρ, ha, hP⟩ := (initLE_bridge p h).2.1
+  exact ⟨⟨_, _, m⟩, hρ, ha, hP⟩
+
 /-- pair (λ, E): the constructor returns or raises `ValueError`, nothing else -/
 theorem initLE_total (p : BlakeInitLE.P) : BlakeInitLE.outcome p = .ok ∨ BlakeInitLE.outcome p = .raise "ValueError" := by
+  unfold BlakeInitLE.outcome
   epv_ok_or_valueError
 
 theorem initLE_raise (p : BlakeInitLE.P) (h : BlakeInitLE.outcome p ≠ .ok) : BlakeInitLE.outcome p = .raise "ValueError" :=
   (initLE_total p).resolve_left h
 
-/-- pair (λ, ν), constructor: an accepting path ends with one positive-definite isotropic material that
-reproduces the two supplied values; the problem parameters and the supplied values are the documented
-admissible ones -/
+/-- pair (λ, ν): an accepting path of the constructor is an accepting path of `set_elastic_params` on the two
+supplied values, followed by the four problem-parameter checks; the six attributes are what it returned -/
+theorem initLNu_bridge (p : BlakeInitLNu.P) (h : BlakeInitLNu.outcome p = .ok) :
+    BlakeModLNu.outcome { lame_mod := p.lame_mod, poisson_ratio := p.poisson_ratio } = .ok ∧ DocumentedProblem p.geometry p.ref_density p.cavity_radius p.pressure_scale
+    ∧ BlakeInitLNu.lame_mod p = BlakeModLNu.lame_mod { lame_mod := p.lame_mod, poisson_ratio := p.poisson_ratio }
+    ∧ BlakeInitLNu.shear_mod p = BlakeModLNu.shear_mod { lame_mod := p.lame_mod, poisson_ratio := p.poisson_ratio }
+    ∧ BlakeInitLNu.youngs_mod p = BlakeModLNu.youngs_mod { lame_mod := p.lame_mod, poisson_ratio := p.poisson_ratio }
+    ∧ BlakeInitLNu.poisson_ratio p = BlakeModLNu.poisson_ratio { lame_mod := p.lame_mod, poisson_ratio := p.poisson_ratio }
+    ∧ BlakeInitLNu.bulk_mod p = BlakeModLNu.bulk_mod { lame_mod := p.lame_mod, poisson_ratio := p.poisson_ratio }
+    ∧ BlakeInitLNu.long_mod p = BlakeModLNu.long_mod { lame_mod := p.lame_mod, poisson_ratio := p.poisson_ratio } := by
+  unfold BlakeInitLNu.outcome at h
+  unfold BlakeInitLNu.lame_mod BlakeInitLNu.shear_mod BlakeInitLNu.youngs_mod BlakeInitLNu.poisson_ratio BlakeInitLNu.bulk_mod BlakeInitLNu.long_mod
+  epv_walk (
+    simp only [epv_tree, epv_cond, DocumentedProblem] at *
+    simp only [*, if_true, if_false, not_true_eq_false, not_false_eq_true, and_self, true_and]
+    exact ⟨rfl, rfl, rfl, rfl, rfl, rfl⟩)
+
+/-- pair (λ, ν), constructor: on acceptance the six attributes are one positive-definite isotropic material that
+reproduces the two supplied values (the hypotheses of the C15 field theorems hold for the constructed solver) -/
 theorem initLNu_ok (p : BlakeInitLNu.P) (h : BlakeInitLNu.outcome p = .ok) :
     IsoMaterial (BlakeInitLNu.lame_mod p) (BlakeInitLNu.shear_mod p) (BlakeInitLNu.youngs_mod p) (BlakeInitLNu.poisson_ratio p) (BlakeInitLNu.bulk_mod p) (BlakeInitLNu.long_mod p)
-      ∧ BlakeInitLNu.lame_mod p = p.lame_mod ∧ BlakeInitLNu.poisson_ratio p = p.poisson_ratio ∧ DocumentedProblem p.geometry p.ref_density p.cavity_radius p.pressure_scale
-      ∧ Kind.GivenOk .lame p.lame_mod ∧ Kind.GivenOk .poisson p.poisson_ratio := by
-  epv_paths (
-    simp only [epv_cond] at *
-    simp only [epv_leaf, Kind.GivenOk]
-    simp only [not_le, not_lt] at *
-    have hν : 0 < p.poisson_ratio := by
-      by_contra hc
-      rw [not_lt] at hc
-      have h := ‹0 < p.lame_mod * (1 - 2 * p.poisson_ratio) / (2 * p.poisson_ratio)›
-      have : p.lame_mod * (1 - 2 * p.poisson_ratio) / (2 * p.poisson_ratio) ≤ 0 :=
-        div_nonpos_of_nonneg_of_nonpos (mul_nonneg (by linarith) (by linarith)) (by linarith)
-      linarith
-    refine ⟨IsoMaterial.of_mul ?_ ?_ ?_ ?_ ?_ ?_, ?_, ?_, ⟨?_, ?_, ?_, ?_⟩, ?_, ?_⟩ <;> first | trivial | assumption | linarith | ring1 | (fsimp <;> ring1) | exact ⟨by linarith, by linarith⟩)
+      ∧ BlakeInitLNu.lame_mod p = p.lame_mod ∧ BlakeInitLNu.poisson_ratio p = p.poisson_ratio := by
+  obtain ⟨hm, -, e1, e2, e3, e4, e5, e6⟩ := initLNu_bridge p h
+  rw [e1, e2, e3, e4, e5, e6]
+  exact EPV.Blake.modLNu_ok _ hm
 
 /-- pair (λ, ν): the constructor **accepts ⇔ the input is documented-valid** -/
 theorem initLNu_accepts_iff (p : BlakeInitLNu.P) :
     BlakeInitLNu.outcome p = .ok ↔ (DocumentedPair .lame .poisson p.lame_mod p.poisson_ratio) ∧ DocumentedProblem p.geometry p.ref_density p.cavity_radius p.pressure_scale := by
   constructor
   · intro h
-    obtain ⟨m, e1, e2, d, g1, g2⟩ := initLNu_ok p h
-    refine ⟨⟨g1, g2, _, _, m.shear_pos, m.bulk_pos, ?_, ?_⟩, d⟩
-    · rw [← e1]; exact m.kind_of.1
-    · rw [← e2]; exact m.kind_of.2.2.2.1
+    obtain ⟨hm, d, -⟩ := initLNu_bridge p h
+    exact ⟨(EPV.Blake.modLNu_accepts_iff _).mp hm, d⟩
   · rintro ⟨⟨hx, hy, L, G, hG, hB, h1, h2⟩, hgeo, hrho, hrad, hprs⟩
     simp only [Kind.of, Kind.GivenOk] at hx hy h1 h2
     have hLG : 0 < L + G := by linarith
@@ -188,37 +236,60 @@ theorem initLNu_accepts_iff (p : BlakeInitLNu.P) :
     have hc8 : BlakeInitLNu.c8 p := by simp only [epv_cond]; exact hprs
     simp only [epv_tree, hc0, hc1, hc2, hc3, hc4, hc5, hc6, hc7, hc8, if_true, if_false, ite_self]
 
+/-- pair (λ, ν): **the constructed solver is in the domain of the C15 field theorems** — the attributes `_run` reads
+(a, ρ₀, P₀ as supplied, λ, G, ν, M as the constructor computed them) form an admissible problem
+(`EPV.Blake.Admissible`: one positive-definite isotropic material, ρ₀, a, P₀ > 0) -/
+theorem initLNu_admissible (p : BlakeInitLNu.P) (h : BlakeInitLNu.outcome p = .ok) :
+    EPV.Blake.Admissible
+      { cavity_radius := p.cavity_radius, lame_mod := BlakeInitLNu.lame_mod p, long_mod := BlakeInitLNu.long_mod p,
+        poisson_ratio := BlakeInitLNu.poisson_ratio p, pressure_scale := p.pressure_scale, ref_density := p.ref_density,
+        shear_mod := BlakeInitLNu.shear_mod p } := by
+  obtain ⟨m, -, -⟩ := initLNu_ok p h
+  obtain ⟨-, hρ, ha, hP⟩ := (initLNu_bridge p h).2.1
+  exact ⟨⟨_, _, m⟩, hρ, ha, hP⟩
+
 /-- pair (λ, ν): the constructor returns or raises `ValueError`, nothing else (in exact arithmetic; at ν = 0 Python divides by zero first:
 see `EPV.C15.finding_modLNu_division_by_zero`) -/
 theorem initLNu_total (p : BlakeInitLNu.P) : BlakeInitLNu.outcome p = .ok ∨ BlakeInitLNu.outcome p = .raise "ValueError" := by
+  unfold BlakeInitLNu.outcome
   epv_ok_or_valueError
 
 theorem initLNu_raise (p : BlakeInitLNu.P) (hν : p.poisson_ratio ≠ 0) (h : BlakeInitLNu.outcome p ≠ .ok) : BlakeInitLNu.outcome p = .raise "ValueError" :=
   (initLNu_total p).resolve_left h
 
-/-- pair (λ, K), constructor: an accepting path ends with one positive-definite isotropic material that
-reproduces the two supplied values; the problem parameters and the supplied values are the documented
-admissible ones -/
+/-- pair (λ, K): an accepting path of the constructor is an accepting path of `set_elastic_params` on the two
+supplied values, followed by the four problem-parameter checks; the six attributes are what it returned -/
+theorem initLK_bridge (p : BlakeInitLK.P) (h : BlakeInitLK.outcome p = .ok) :
+    BlakeModLK.outcome { lame_mod := p.lame_mod, bulk_mod := p.bulk_mod } = .ok ∧ DocumentedProblem p.geometry p.ref_density p.cavity_radius p.pressure_scale
+    ∧ BlakeInitLK.lame_mod p = BlakeModLK.lame_mod { lame_mod := p.lame_mod, bulk_mod := p.bulk_mod }
+    ∧ BlakeInitLK.shear_mod p = BlakeModLK.shear_mod { lame_mod := p.lame_mod, bulk_mod := p.bulk_mod }
+    ∧ BlakeInitLK.youngs_mod p = BlakeModLK.youngs_mod { lame_mod := p.lame_mod, bulk_mod := p.bulk_mod }
+    ∧ BlakeInitLK.poisson_ratio p = BlakeModLK.poisson_ratio { lame_mod := p.lame_mod, bulk_mod := p.bulk_mod }
+    ∧ BlakeInitLK.bulk_mod p = BlakeModLK.bulk_mod { lame_mod := p.lame_mod, bulk_mod := p.bulk_mod }
+    ∧ BlakeInitLK.long_mod p = BlakeModLK.long_mod { lame_mod := p.lame_mod, bulk_mod := p.bulk_mod } := by
+  unfold BlakeInitLK.outcome at h
+  unfold BlakeInitLK.lame_mod BlakeInitLK.shear_mod BlakeInitLK.youngs_mod BlakeInitLK.poisson_ratio BlakeInitLK.bulk_mod BlakeInitLK.long_mod
+  epv_walk (
+    simp only [epv_tree, epv_cond, DocumentedProblem] at *
+    simp only [*, if_true, if_false, not_true_eq_false, not_false_eq_true, and_self, true_and]
+    exact ⟨rfl, rfl, rfl, rfl, rfl, rfl⟩)
+
+/-- pair (λ, K), constructor: on acceptance the six attributes are one positive-definite isotropic material that
+reproduces the two supplied values (the hypotheses of the C15 field theorems hold for the constructed solver) -/
 theorem initLK_ok (p : BlakeInitLK.P) (h : BlakeInitLK.outcome p = .ok) :
     IsoMaterial (BlakeInitLK.lame_mod p) (BlakeInitLK.shear_mod p) (BlakeInitLK.youngs_mod p) (BlakeInitLK.poisson_ratio p) (BlakeInitLK.bulk_mod p) (BlakeInitLK.long_mod p)
-      ∧ BlakeInitLK.lame_mod p = p.lame_mod ∧ BlakeInitLK.bulk_mod p = p.bulk_mod ∧ DocumentedProblem p.geometry p.ref_density p.cavity_radius p.pressure_scale
-      ∧ Kind.GivenOk .lame p.lame_mod ∧ Kind.GivenOk .bulk p.bulk_mod := by
-  epv_paths (
-    simp only [epv_cond] at *
-    simp only [epv_leaf, Kind.GivenOk]
-    simp only [not_le, not_lt] at *
-    have h1 : 0 < 3 * p.bulk_mod - p.lame_mod := by linarith
-    refine ⟨IsoMaterial.of_mul ?_ ?_ ?_ ?_ ?_ ?_, ?_, ?_, ⟨?_, ?_, ?_, ?_⟩, ?_, ?_⟩ <;> first | trivial | assumption | linarith | ring1 | (fsimp <;> ring1) | exact ⟨by linarith, by linarith⟩)
+      ∧ BlakeInitLK.lame_mod p = p.lame_mod ∧ BlakeInitLK.bulk_mod p = p.bulk_mod := by
+  obtain ⟨hm, -, e1, e2, e3, e4, e5, e6⟩ := initLK_bridge p h
+  rw [e1, e2, e3, e4, e5, e6]
+  exact EPV.Blake.modLK_ok _ hm
 
 /-- pair (λ, K): the constructor **accepts ⇔ the input is documented-valid** -/
 theorem initLK_accepts_iff (p : BlakeInitLK.P) :
     BlakeInitLK.outcome p = .ok ↔ (DocumentedPair .lame .bulk p.lame_mod p.bulk_mod) ∧ DocumentedProblem p.geometry p.ref_density p.cavity_radius p.pressure_scale := by
   constructor
   · intro h
-    obtain ⟨m, e1, e2, d, g1, g2⟩ := initLK_ok p h
-    refine ⟨⟨g1, g2, _, _, m.shear_pos, m.bulk_pos, ?_, ?_⟩, d⟩
-    · rw [← e1]; exact m.kind_of.1
-    · rw [← e2]; exact m.kind_of.2.2.2.2.1
+    obtain ⟨hm, d, -⟩ := initLK_bridge p h
+    exact ⟨(EPV.Blake.modLK_accepts_iff _).mp hm, d⟩
   · rintro ⟨⟨hx, hy, L, G, hG, hB, h1, h2⟩, hgeo, hrho, hrad, hprs⟩
     simp only [Kind.of, Kind.GivenOk] at hx hy h1 h2
     have hLG : 0 < L + G := by linarith
@@ -244,36 +315,59 @@ theorem initLK_accepts_iff (p : BlakeInitLK.P) :
     have hc9 : BlakeInitLK.c9 p := by simp only [epv_cond]; exact hprs
     simp only [epv_tree, hc0, hc1, hc2, hc4, hc5, hc6, hc7, hc8, hc9, if_true, if_false, ite_self]
 
+/-- pair (λ, K): **the constructed solver is in the domain of the C15 field theorems** — the attributes `_run` reads
+(a, ρ₀, P₀ as supplied, λ, G, ν, M as the constructor computed them) form an admissible problem
+(`EPV.Blake.Admissible`: one positive-definite isotropic material, ρ₀, a, P₀ > 0) -/
+theorem initLK_admissible (p : BlakeInitLK.P) (h : BlakeInitLK.outcome p = .ok) :
+    EPV.Blake.Admissible
+      { cavity_radius := p.cavity_radius, lame_mod := BlakeInitLK.lame_mod p, long_mod := BlakeInitLK.long_mod p,
+        poisson_ratio := BlakeInitLK.poisson_ratio p, pressure_scale := p.pressure_scale, ref_density := p.ref_density,
+        shear_mod := BlakeInitLK.shear_mod p } := by
+  obtain ⟨m, -, -⟩ := initLK_ok p h
+  obtain ⟨-, hρ, ha, hP⟩ := (initLK_bridge p h).2.1
+  exact ⟨⟨_, _, m⟩, hρ, ha, hP⟩
+
 /-- pair (λ, K): the constructor returns or raises `ValueError`, nothing else -/
 theorem initLK_total (p : BlakeInitLK.P) : BlakeInitLK.outcome p = .ok ∨ BlakeInitLK.outcome p = .raise "ValueError" := by
+  unfold BlakeInitLK.outcome
   epv_ok_or_valueError
 
 theorem initLK_raise (p : BlakeInitLK.P) (h : BlakeInitLK.outcome p ≠ .ok) : BlakeInitLK.outcome p = .raise "ValueError" :=
   (initLK_total p).resolve_left h
 
-/-- pair (λ, M), constructor: an accepting path ends with one positive-definite isotropic material that
-reproduces the two supplied values; the problem parameters and the supplied values are the documented
-admissible ones -/
+/-- pair (λ, M): an accepting path of the constructor is an accepting path of `set_elastic_params` on the two
+supplied values, followed by the four problem-parameter checks; the six attributes are what it returned -/
+theorem initLM_bridge (p : BlakeInitLM.P) (h : BlakeInitLM.outcome p = .ok) :
+    BlakeModLM.outcome { lame_mod := p.lame_mod, long_mod := p.long_mod } = .ok ∧ DocumentedProblem p.geometry p.ref_density p.cavity_radius p.pressure_scale
+    ∧ BlakeInitLM.lame_mod p = BlakeModLM.lame_mod { lame_mod := p.lame_mod, long_mod := p.long_mod }
+    ∧ BlakeInitLM.shear_mod p = BlakeModLM.shear_mod { lame_mod := p.lame_mod, long_mod := p.long_mod }
+    ∧ BlakeInitLM.youngs_mod p = BlakeModLM.youngs_mod { lame_mod := p.lame_mod, long_mod := p.long_mod }
+    ∧ BlakeInitLM.poisson_ratio p = BlakeModLM.poisson_ratio { lame_mod := p.lame_mod, long_mod := p.long_mod }
+    ∧ BlakeInitLM.bulk_mod p = BlakeModLM.bulk_mod { lame_mod := p.lame_mod, long_mod := p.long_mod }
+    ∧ BlakeInitLM.long_mod p = BlakeModLM.long_mod { lame_mod := p.lame_mod, long_mod := p.long_mod } := by
+  unfold BlakeInitLM.outcome at h
+  unfold BlakeInitLM.lame_mod BlakeInitLM.shear_mod BlakeInitLM.youngs_mod BlakeInitLM.poisson_ratio BlakeInitLM.bulk_mod BlakeInitLM.long_mod
+  epv_walk (
+    simp only [epv_tree, epv_cond, DocumentedProblem] at *
+    simp only [*, if_true, if_false, not_true_eq_false, not_false_eq_true, and_self, true_and]
+    exact ⟨rfl, rfl, rfl, rfl, rfl, rfl⟩)
+
+/-- pair (λ, M), constructor: on acceptance the six attributes are one positive-definite isotropic material that
+reproduces the two supplied values (the hypotheses of the C15 field theorems hold for the constructed solver) -/
 theorem initLM_ok (p : BlakeInitLM.P) (h : BlakeInitLM.outcome p = .ok) :
     IsoMaterial (BlakeInitLM.lame_mod p) (BlakeInitLM.shear_mod p) (BlakeInitLM.youngs_mod p) (BlakeInitLM.poisson_ratio p) (BlakeInitLM.bulk_mod p) (BlakeInitLM.long_mod p)
-      ∧ BlakeInitLM.lame_mod p = p.lame_mod ∧ BlakeInitLM.long_mod p = p.long_mod ∧ DocumentedProblem p.geometry p.ref_density p.cavity_radius p.pressure_scale
-      ∧ Kind.GivenOk .lame p.lame_mod ∧ Kind.GivenOk .long p.long_mod := by
-  epv_paths (
-    simp only [epv_cond] at *
-    simp only [epv_leaf, Kind.GivenOk]
-    simp only [not_le, not_lt] at *
-    have h1 : 0 < p.long_mod + p.lame_mod := by linarith
-    refine ⟨IsoMaterial.of_mul ?_ ?_ ?_ ?_ ?_ ?_, ?_, ?_, ⟨?_, ?_, ?_, ?_⟩, ?_, ?_⟩ <;> first | trivial | assumption | linarith | ring1 | (fsimp <;> ring1) | exact ⟨by linarith, by linarith⟩)
+      ∧ BlakeInitLM.lame_mod p = p.lame_mod ∧ BlakeInitLM.long_mod p = p.long_mod := by
+  obtain ⟨hm, -, e1, e2, e3, e4, e5, e6⟩ := initLM_bridge p h
+  rw [e1, e2, e3, e4, e5, e6]
+  exact EPV.Blake.modLM_ok _ hm
 
 /-- pair (λ, M): the constructor **accepts ⇔ the input is documented-valid** -/
 theorem initLM_accepts_iff (p : BlakeInitLM.P) :
     BlakeInitLM.outcome p = .ok ↔ (DocumentedPair .lame .long p.lame_mod p.long_mod) ∧ DocumentedProblem p.geometry p.ref_density p.cavity_radius p.pressure_scale := by
   constructor
   · intro h
-    obtain ⟨m, e1, e2, d, g1, g2⟩ := initLM_ok p h
-    refine ⟨⟨g1, g2, _, _, m.shear_pos, m.bulk_pos, ?_, ?_⟩, d⟩
-    · rw [← e1]; exact m.kind_of.1
-    · rw [← e2]; exact m.kind_of.2.2.2.2.2
+    obtain ⟨hm, d, -⟩ := initLM_bridge p h
+    exact ⟨(EPV.Blake.modLM_accepts_iff _).mp hm, d⟩
   · rintro ⟨⟨hx, hy, L, G, hG, hB, h1, h2⟩, hgeo, hrho, hrad, hprs⟩
     simp only [Kind.of, Kind.GivenOk] at hx hy h1 h2
     have hLG : 0 < L + G := by linarith
@@ -295,11 +389,28 @@ theorem initLM_accepts_iff (p : BlakeInitLM.P) :
     have hc7 : BlakeInitLM.c7 p := by simp only [epv_cond]; exact hprs
     simp only [epv_tree, hc0, hc1, hc2, hc3, hc4, hc5, hc6, hc7, if_true, if_false, ite_self]
 
+/-- pair (λ, M): **the constructed solver is in the domain of the C15 field theorems** — the attributes `_run` reads
+(a, ρ₀, P₀ as supplied, λ, G, ν, M as the constructor computed them) form an admissible problem
+(`EPV.Blake.Admissible`: one positive-definite isotropic material, ρ₀, a, P₀ > 0) -/
+theorem initLM_admissible (p : BlakeInitLM.P) (h : BlakeInitLM.outcome p = .ok) :
+    EPV.Blake.Admissible
+      { cavity_radius := p.cavity_radius, lame_mod := BlakeInitLM.lame_mod p, long_mod := BlakeInitLM.long_mod p,
+        poisson_ratio := BlakeInitLM.poisson_ratio p, pressure_scale := p.pressure_scale, ref_density := p.ref_density,
+        shear_mod := BlakeInitLM.shear_mod p } := by
+  obtain ⟨m, -, -⟩ := initLM_ok p h
+  obtain ⟨-, hρ, ha, hP⟩ := (initLM_bridge p h).2.1
+  exact ⟨⟨_, _, m⟩, hρ, ha, hP⟩
+
 /-- pair (λ, M): the constructor returns or raises `ValueError`, nothing else -/
 theorem initLM_total (p : BlakeInitLM.P) : BlakeInitLM.outcome p = .ok ∨ BlakeInitLM.outcome p = .raise "ValueError" := by
+  unfold BlakeInitLM.outcome
   epv_ok_or_valueError
 
 theorem initLM_raise (p : BlakeInitLM.P) (h : BlakeInitLM.outcome p ≠ .ok) : BlakeInitLM.outcome p = .raise "ValueError" :=
   (initLM_total p).resolve_left h
+
+/-- non-vacuity: the default problem, specified through the pair (λ, G), is accepted -/
+example : BlakeInitLG.outcome { lame_mod := 25000000000, shear_mod := 25000000000, geometry := 3, ref_density := 3000, cavity_radius := 1 / 10, pressure_scale := 1000000 } = .ok := by
+  simp only [epv_tree, epv_cond]; norm_num
 
 end EPV.C20
